@@ -358,9 +358,11 @@ def instrument(S, cfg, CR, goals):
     orig_send = S.send
 
     def send(addr, text, desc):
+        if orig_send(addr, text, desc) is False:
+            return False                      # not sendable (connection ended / previous message unread): no event
         M.pending.setdefault(addr, []).append(desc)
         M.sent.setdefault(addr, []).append(desc)
-        orig_send(addr, text, desc)
+        return True
     S.send = send
     orig_settle = S.settle
 
